@@ -143,12 +143,19 @@ def check_one(case, res):
                 any_dc = True
             exp_dom.append(([tuple(map(float, p)) for p, v in zip(f, vs) if v == "must"], [tuple(map(float, p)) for p, v in zip(f, vs) if v != "no"]))
         expected.append(exp_dom)
+    # a list of which nothing survives the cut-outs is left out (the other lists still hold valid candidates)
+    has_empty = any(not any(may for _, may in dom) for dom in expected)
+    expected = [dom for dom in expected if any(may for _, may in dom)]
     if nested is None:
         if any(must for dom in expected for must, _ in dom) and not any_dc:
-            res["violations"].append(core.viol("valid_boreholes_dropped", case, msg="polygonal_land_constraint produced no candidate list although clearly valid grid boreholes exist", what="all"))
+            res["violations"].append(core.viol("valid_boreholes_dropped", case, msg="polygonal_land_constraint produced no candidate list although clearly valid grid boreholes exist",
+                                               what="all", some_list_empty=has_empty))
         return
-    if len(nested) != len(grid):
-        res["violations"].append(core.viol("wrong_number_of_lists", case, msg=f"{len(nested)} candidate lists, the grid has {len(grid)}"))
+    if len(nested) != len(expected):
+        if any_dc:
+            res["excluded"] += 1
+            return
+        res["violations"].append(core.viol("wrong_number_of_lists", case, msg=f"{len(nested)} candidate lists, expected {len(expected)} non-empty ones of the grid's {len(grid)}"))
         return
     if any_dc:
         res["excluded"] += 1
